@@ -161,6 +161,10 @@ class EngineBase:
             ci = None
         if ci is not None:
             names = [c.name for c in self.repo.mro(ci)]
+        for n in list(names):
+            vm = self.reg.models.get(n)
+            if vm is not None and vm.view and vm.view not in names:
+                names.append(vm.view)       # abstract view implemented by this class (ghost fields live there)
         for n in names:
             m = self.reg.models.get(n)
             if m is None:
@@ -193,17 +197,25 @@ class EngineBase:
         if ty[0] == "opt" and ty[1][0] == "list":
             raise Unsupported("optional list field %s: use read_optlist" % key)
         if ty[0] == "dict":
-            return DictFld(obj, key, ty[1], ty[2])
+            return DictFld(obj, key, ty[1], ty[2], sorted=len(ty) > 3 and ty[3] == "sorted")
         arr = st.harr(key, self.key_sort(key, ty))
         return Val(ty, z3.Select(arr, obj))
 
     def write_field(self, st, obj, key, ty, val):
         if ty[0] == "list":
+            if isinstance(val, PyConst) and val.v is None:
+                cn, _, f = key.partition(".")
+                m = self.reg.models.get(cn)
+                if m is not None and f in m.none_as_empty:
+                    self.assumptions_used.add("%s: the placeholder None (not in use yet) is represented by the empty list" % key)
+                    self.set_list(st, FldList(obj, key, ty[1]), self.empty_list(ty[1]))
+                    return
             lv = self.as_lval(st, val, ty[1])
             self.set_list(st, FldList(obj, key, ty[1]), lv)
             return
         if ty[0] == "dict":
-            if isinstance(val, DictLit) and not val.items:
+            is_sorted = len(ty) > 3 and ty[3] == "sorted"
+            if isinstance(val, DictLit) and not val.items and bool(getattr(val, "sorted", False)) == is_sorted:
                 self.dict_clear(st, DictFld(obj, key, ty[1], ty[2]))
                 return
             raise Unsupported("assignment of non-empty dict to field %s" % key)
@@ -514,18 +526,20 @@ class EngineBase:
 
 
 class DictLit:
-    __slots__ = ("items",)
+    __slots__ = ("items", "sorted")
 
-    def __init__(self, items):
+    def __init__(self, items, sorted=False):
         self.items = items
+        self.sorted = sorted
 
 
 class DictFld:
     """dict stored in a field: domain predicate + value array + insertion-ordered key list"""
-    __slots__ = ("obj", "key", "kty", "vty")
+    __slots__ = ("obj", "key", "kty", "vty", "sorted")
 
-    def __init__(self, obj, key, kty, vty):
+    def __init__(self, obj, key, kty, vty, sorted=False):
         self.obj = obj
         self.key = key
         self.kty = kty
         self.vty = vty
+        self.sorted = sorted      # sortedcontainers.SortedDict
